@@ -41,7 +41,9 @@ def run(ctx):
                 probs.append("pool order %s: panic %s" % (ro["order"], ro["panic"][:200]))
                 continue
             got = {tuple(ch) for ch in (ro["chains"] or [])}
-            if ro["ok"] != x["accept"]:
+            if ro["ok"] != x["accept"] and x["accept"] and not x["must_accept"]:
+                pass      # only chains through a CA whose own EKU excludes the usage: either verdict is within the statement
+            elif ro["ok"] != x["accept"]:
                 if x["accept"]:
                     probs.append("pool order %s: rejected (%s) although %s is a valid chain" % (ro["order"], ro["err"][:80], sorted(want)[0]))
                 else:
